@@ -31,8 +31,9 @@ def main():
                 open(os.path.join(d, "patch.diff"), "w").write(newdiff)
                 meta["patch_rebased_onto"] = sh("git -C /repo rev-parse --short HEAD")[1].strip()
         results = {}
+        scope = [meta.get("property")] if os.environ.get("MATRIX_SCOPE") == "own" else ALL
         try:
-            for cid in ALL:
+            for cid in scope:
                 t0 = time.time()
                 rcq, oq = sh("./check %s --tier quick" % cid, "/verif")
                 results[cid] = {"quick_exit": rcq, "quick_s": round(time.time() - t0, 1),
@@ -56,7 +57,7 @@ def main():
         c = m.get("checks", {})
         sig = ", ".join(c.get(own, {}).get("signatures", [])[:2]) if m.get("caught_by_own_property") else "**missed**"
         others = ", ".join(x for x in m.get("caught_by", []) if x != own)
-        rows.append("| %s | %s | %s | %s | %s |" % (os.path.basename(d), own, (m.get("needs") or "")[:160].replace("|", "/").replace("\n", " "), sig, others))
+        rows.append("| %s | %s | %s | %s | %s |" % (os.path.basename(d), own, (m.get("needs") or m.get("trigger") or "")[:160].replace("|", "/").replace("\n", " "), sig, others))
     open("/verif/seeded/MATRIX.md", "w").write("\n".join(rows) + "\n")
     return 0
 
